@@ -44,12 +44,16 @@ def kingOff : List (Int × Int) := [(1,0),(1,1),(0,1),(-1,1),(-1,0),(-1,-1),(0,-
 def rookDirs : List (Int × Int) := [(1,0),(-1,0),(0,1),(0,-1)]
 def bishopDirs : List (Int × Int) := [(1,1),(1,-1),(-1,1),(-1,-1)]
 
-/-- squares reached sliding from `sq` in direction `d`, up to and including the first occupied one -/
-def slide (p : Pos) (sq : Nat) (d : Int × Int) : Nat → List Nat
+/-- squares reached sliding from `sq` in direction `d` over an occupancy predicate, up to and
+    including the first occupied one -/
+def slideOcc (occ : Nat → Bool) (sq : Nat) (d : Int × Int) : Nat → List Nat
   | 0 => []
   | fuel+1 => match step sq d.1 d.2 with
     | none => []
-    | some t => if (p.at t).isSome then [t] else t :: slide p t d fuel
+    | some t => if occ t then [t] else t :: slideOcc occ t d fuel
+
+def slide (p : Pos) (sq : Nat) (d : Int × Int) (fuel : Nat) : List Nat :=
+  slideOcc (fun t => (p.at t).isSome) sq d fuel
 
 def pawnDir : Color → Int | .white => 1 | .black => -1
 
